@@ -223,6 +223,7 @@ func cmdRun(args []string) int {
 		dir string
 	}
 	var hs []hfn
+	ianaTwin := map[string]hfn{}
 	prefix := "Verif" + prop + "_"
 	var onlyRe *regexp.Regexp
 	if *only != "" {
@@ -254,6 +255,16 @@ func cmdRun(args []string) int {
 			if strings.Contains(name, "_T_") && *tier != "thorough" {
 				continue
 			}
+			if strings.HasSuffix(name, "_IANA") {
+				// real-zone refinement of the generic harness of the same name: run when that one has findings
+				// (every tier), and unconditionally in the thorough tier
+				if onlyRe == nil || onlyRe.MatchString(name) {
+					ianaTwin[strings.TrimSuffix(name, "_IANA")] = hfn{fn, dir}
+				}
+				if *tier != "thorough" && (onlyRe == nil || !strings.HasSuffix(*only, "IANA$")) {
+					continue
+				}
+			}
 			if onlyRe != nil && !onlyRe.MatchString(name) {
 				continue
 			}
@@ -267,33 +278,62 @@ func cmdRun(args []string) int {
 	results := make([]*harnessResult, len(hs))
 	var wg sync.WaitGroup
 	sem := make(chan struct{}, *jobs)
-	for i, h := range hs {
-		wg.Add(1)
-		go func(i int, h hfn) {
-			defer wg.Done()
-			sem <- struct{}{}
-			defer func() { <-sem }()
-			opt := gosym.Options{Seed: seed, Trace: *trace, QueryMs: *queryMs, NoMerge: *noMerge, MergeDebug: os.Getenv("VERIF_MERGEDBG") != ""}
-			opt.DeadlineS = *harnessS
-			if opt.DeadlineS == 0 {
-				opt.DeadlineS = 600
-				if *tier == "thorough" {
-					opt.DeadlineS = 7200
+	runAll := func(hs []hfn, results []*harnessResult) {
+		for i, h := range hs {
+			wg.Add(1)
+			go func(i int, h hfn) {
+				defer wg.Done()
+				sem <- struct{}{}
+				defer func() { <-sem }()
+				opt := gosym.Options{Seed: seed, Trace: *trace, QueryMs: *queryMs, NoMerge: *noMerge, MergeDebug: os.Getenv("VERIF_MERGEDBG") != ""}
+				opt.DeadlineS = *harnessS
+				if opt.DeadlineS == 0 {
+					opt.DeadlineS = 600
+					if *tier == "thorough" {
+						opt.DeadlineS = 7200
+					}
 				}
-			}
-			if opt.QueryMs == 0 {
-				if *tier == "thorough" {
-					opt.QueryMs = 600000
-				} else {
-					opt.QueryMs = 60000
+				if opt.QueryMs == 0 {
+					if *tier == "thorough" {
+						opt.QueryMs = 600000
+					} else {
+						opt.QueryMs = 60000
+					}
 				}
-			}
-			results[i] = runHarness(prog, spkgs, h.fn, h.dir, opt, *dump)
-		}(i, h)
+				results[i] = runHarness(prog, spkgs, h.fn, h.dir, opt, *dump)
+			}(i, h)
+		}
+		wg.Wait()
 	}
-	wg.Wait()
+	runAll(hs, results)
+	// second pass: real-zone twins of generic harnesses that produced counterexamples
+	have := map[string]bool{}
+	for _, h := range hs {
+		have[h.fn.Name()] = true
+	}
+	var hs2 []hfn
+	for _, r := range results {
+		n := 0
+		for _, f := range r.Findings {
+			if f.Kind == "assert" || f.Kind == "panic" {
+				n++
+			}
+		}
+		if tw, ok := ianaTwin[r.Name]; ok && n > 0 && !have[tw.fn.Name()] {
+			hs2 = append(hs2, tw)
+		}
+	}
+	if len(hs2) > 0 {
+		res2 := make([]*harnessResult, len(hs2))
+		runAll(hs2, res2)
+		results = append(results, res2...)
+	}
+	modelOnly := map[string]bool{}
+	for g := range ianaTwin {
+		modelOnly[g] = true
+	}
 
-	return conclude(prop, *tier, seed, t0, loadS, results, ov, used, *noReplay)
+	return conclude(prop, *tier, seed, t0, loadS, results, ov, used, *noReplay, modelOnly)
 }
 
 func runHarness(prog *ssa.Program, spkgs []*ssa.Package, fn *ssa.Function, dir string, opt gosym.Options, dump string) (res *harnessResult) {
@@ -517,7 +557,7 @@ func inconclusive(prop, tier string, seed int64, t0 time.Time, reason string) in
 	return 2
 }
 
-func conclude(prop, tier string, seed int64, t0 time.Time, loadS float64, results []*harnessResult, ov map[string][]byte, used map[string][]string, noReplay bool) int {
+func conclude(prop, tier string, seed int64, t0 time.Time, loadS float64, results []*harnessResult, ov map[string][]byte, used map[string][]string, noReplay bool, modelOnly map[string]bool) int {
 	known := loadKnown()
 	isKnown := func(id string) bool {
 		for _, k := range known {
@@ -662,6 +702,7 @@ func conclude(prop, tier string, seed int64, t0 time.Time, loadS float64, result
 	violations := 0
 	var knownLines []string
 	var violationLines []string
+	var notes []string
 	if !noReplay && len(pend) > 0 {
 		byDir := map[string][]pending{}
 		for _, p := range pend {
@@ -764,6 +805,12 @@ func conclude(prop, tier string, seed int64, t0 time.Time, loadS float64, result
 					inconcl = append(inconcl, fmt.Sprintf("%s: counterexample for %q did not reproduce natively (status %s %v %s): encoding error", f.Harness, f.Label, nr.Status, nr.Failures, nr.Panic))
 					continue
 				}
+				if modelOnly[f.Harness] {
+					// counterexample in a synthetic two-interval zone: confirms the model; the alarm is raised by
+					// the real-zone (IANA) twin of the harness, which runs whenever this one has a finding
+					notes = append(notes, fmt.Sprintf("NOTE property=%s harness=%s counterexample reproduced in a synthetic two-interval zone (%s); real-zone refinement decides: replay=%s", prop, f.Harness, f.Label, p.file))
+					continue
+				}
 				if f.Region != "" && f.InRegion && isKnown(f.Region) {
 					knownLines = append(knownLines, fmt.Sprintf("KNOWN-FINDING: property=%s id=%s %s [%s] replay=%s", prop, f.Region, f.Label, f.Harness, p.file))
 					continue
@@ -782,6 +829,10 @@ func conclude(prop, tier string, seed int64, t0 time.Time, loadS float64, result
 	sort.Strings(violationLines)
 	knownLines = uniq(knownLines)
 	for _, l := range knownLines {
+		fmt.Println(l)
+	}
+	sort.Strings(notes)
+	for _, l := range uniq(notes) {
 		fmt.Println(l)
 	}
 	for _, l := range violationLines {
